@@ -1164,6 +1164,7 @@ class Gen:
         self.t0 = 1.7e9 + c.randint(0, 10 ** 6) + c.choice([0.0, 0.5, 0.123456])
         self.short_step = c.choice([1, 3, 7, 100])
         self.next_pid = 1
+        self.queue = []
         self.last_wsvg = None
         self.recent = []
         self.next_doc = 0
@@ -1315,6 +1316,10 @@ class Gen:
         r = self.st["ops"]
         a = self.st["args"]
         fr = self.st["faults"]
+        while self.queue:
+            op = self.queue.pop(0)
+            if op.get("doc") is None or op["doc"] in w.docs:
+                return op
         names = [k for k, v in self.w_ops.items() if v > 0]
         weights = [self.w_ops[k] for k in names]
         for _ in range(30):
@@ -1331,6 +1336,12 @@ class Gen:
                     f = self.fault(fr, k, w)
                     if f:
                         op["faults"] = f
+                if k == "doc_display" and op.get("file") is None and len(w.docs) >= 2 and a.random() < 0.5:
+                    # clock stalls between timestamped writes (DESIGN 2.4): another document is displayed in
+                    # the same tick, then this one again
+                    other = a.choice([d for d in sorted(w.docs) if d != op["doc"]])
+                    self.queue.append({"op": "doc_display", "doc": other, "file": None, "dt": 0.0})
+                    self.queue.append({"op": "doc_display", "doc": op["doc"], "file": None, "dt": 0.0})
                 return op
         return self.make("wsvg", a, w) or {"op": "restart", "dt": 1.0}
 
